@@ -20,7 +20,7 @@ from typing import Any, Callable
 
 from . import pathex, xh
 
-VERIF = "/verif"
+VERIF = os.environ.get("VERIF_HOME", "/verif")
 # evidence directory (tools/seed_eval.sh redirects it so that trial runs never overwrite committed evidence)
 EVDIR = os.environ.get("VERIF_EVIDENCE_DIR", os.path.join(VERIF, "evidence"))
 KNOWN_FILE = os.path.join(VERIF, "KNOWN_FINDINGS.jsonl")
